@@ -490,8 +490,8 @@ LOOP_STMTS = {
 
 SPEC_STMT = r"""
     ensures
-        stmt is Block ==> (out(r), final(scopes).world()) == spec_stmt(old(scopes).world(), *stmt), // [C07:bare_block_forwards_the_signal_of_its_body]
-        stmt is If ==> (out(r), final(scopes).world()) == spec_stmt(old(scopes).world(), *stmt), // [C07:if_chain_runs_exactly_the_first_true_branch_or_else_and_forwards_its_signal]
+        stmt is Block ==> (out(r), final(scopes).world()) == spec_stmt(old(scopes).world(), *stmt), // [C07_C20:bare_block_runs_in_its_own_fresh_scope_and_forwards_the_signal_of_its_body]
+        stmt is If ==> (out(r), final(scopes).world()) == spec_stmt(old(scopes).world(), *stmt), // [C07_C20:if_chain_runs_exactly_the_first_true_branch_or_else_each_in_its_own_fresh_scope_and_forwards_its_signal]
         stmt is While ==> (out(r), final(scopes).world()) == spec_stmt(old(scopes).world(), *stmt), // [C07:while_rechecks_condition_each_trip_and_break_continue_return_reach_their_target]
         stmt is For ==> (out(r), final(scopes).world()) == spec_stmt(old(scopes).world(), *stmt), // [C07:for_walks_the_entry_snapshot_in_order_and_break_continue_return_reach_their_target]
         (stmt is Break || stmt is Continue || stmt is Return) ==> (out(r), final(scopes).world()) == spec_stmt(old(scopes).world(), *stmt), // [C07:break_continue_return_signal_with_their_own_position_and_value]
@@ -684,6 +684,12 @@ def _expect_stdout(exp):
     return judge
 
 
+def _expect_error_exit(rc, out, err):
+    if rc != 103:
+        return f"expected a reported error (exit 103), got exit {rc} with stdout {out!r}"
+    return None
+
+
 def _expect_located_error(rc, out, err):
     import re as _re
     if rc != 103:
@@ -705,6 +711,8 @@ C07_SCRIPTS = [
     ("break reaches only the innermost loop", "n := 0\nfor x in [1, 2] {\n    while true {\n        break\n    }\n    n += 1\n}\nprint(n)\n", "2\n"),
     ("first true branch only", "if false {\n    print(1)\n} else if true {\n    print(2)\n} else if true {\n    print(3)\n} else {\n    print(4)\n}\n", "2\n"),
     ("statements after break do not run", "for x in [1, 2, 3] {\n    print(x)\n    break\n    print(9)\n}\n", "1\n"),
+    ("a declaration in a taken else-branch does not outlive it", "if false {\n} else {\n    k := 1\n}\nk = 2\n", None),
+    ("parameters share the scope of the body", "fn g(t) {\n    t := 0\n}\ng(1)\nprint(0)\n", None),
     ("for iterates a snapshot", "xs := [1, 2]\nn := 0\nfor x in xs {\n    xs = xs + [3]\n    n += 1\n}\nprint(n)\n", "2\n"),
 ]
 C17_SCRIPTS = [
@@ -718,10 +726,10 @@ C17_SCRIPTS = [
 
 def replays(failed):
     want17 = any(":C17:" in f for f in failed)
-    want07 = any(":C07:" in f for f in failed) or not want17
+    want07 = any(":C07" in f for f in failed) or not want17
     if want07:
         for title, script, exp in C07_SCRIPTS:
-            yield title, script, _expect_stdout(exp)
+            yield title, script, (_expect_stdout(exp) if exp is not None else _expect_error_exit)
     if want17:
         for title, script in C17_SCRIPTS:
             yield title, script, _expect_located_error
